@@ -165,8 +165,8 @@ CLAIMED = {
             "streams with the model interpreter on scope-aware random programs. Theorems: stream-algebra laws; compile_correct (binding core, "
             "paths, folds, label/break), compile_defs (recursive, nested, variable-capturing definitions), compile_params (variable "
             "parameters, arguments evaluated in order) and compile_closures (filter parameters as closures over the caller's environment, "
-            "related step-indexed; also object and string construction, `..`, `if` without `else`) against separately written named "
-            "semantics. Partial: destructuring patterns, formats (@json ...), update operators, `//`-free is not required but `try` "
+            "related step-indexed; also object and string construction, `..`, `if` without `else`, one-level destructuring) against separately written named "
+            "semantics. Partial: nested destructuring patterns and patterns in reduce/foreach, formats (@json ...), update operators, `//`-free is not required but `try` "
             "without `catch`, `[]` and native filters rest on the correspondence.", "7.1",
             "Coq model + table/stream correspondence on generated programs (proof partial)"),
     "C08": ("Theorems: float_cmp is a total preorder with trichotomy on NaN-free floats; integer order/equality exact for every "
